@@ -1,14 +1,193 @@
 /-
-  Oracle commands for C04 (stub: owns no commands yet).
+  Oracle for C04 (model store).  STATEFUL: the oracle carries the model store of the current history.
+
+    reset                                                   -> ok          (empty store)
+    meta <contenthex> <archhex> <mtypehex> <ftypehex>       -> ok          (GGUF metadata the real decoder reported)
+    upload <c|d> <hex> <contenthex> ## <obs>
+    create <name4> from <name4> | files <k> {<c|d> <hex>}*   then
+           <tmplhex|~> <0|1> <syshex|~> <np> {<keyhex> <valhex>}* ## <obs>
+    copy <name4> <name4> ## <obs>
+    delete <name4> ## <obs>
+    prune ## <obs>
+    plant <name4> <name4> ## <obs>        (not an API op: legacy / un-canonicalised manifest)
+    corrupt <name4> ## <obs>              (not an API op: torn manifest)
+    show <name4> ## <status>              (does not change the state)
+
+  `<name4>` = host ns model tag.  `<obs>` is the canonical observation of result + store the driver made on
+  the real code.  Go map iteration order makes some operations nondeterministic: the oracle computes the SET
+  of outcomes (over all orders); if the driver's observation is in the set it is echoed and the oracle
+  continues from that outcome, otherwise the first outcome is printed (an L1 disagreement).
 -/
+import OllamaVerif.Model.Store
+import OllamaVerif.Model.Sha256
 import Oracle.Util
 namespace Oracle.C04
-open Oracle
+open OllamaVerif OllamaVerif.Store Oracle
 
-def handle (toks : List String) : Option String :=
+def bstr (b : Bytes) : String := String.ofList (b.map (fun x => Char.ofNat x.toNat))
+
+def pName : TP Name := do
+  let h ← tok
+  let n ← tok
+  let m ← tok
+  let t ← tok
+  pure ⟨h, n, m, t⟩
+
+def pDigest : TP Digest := do
+  let f ← tok
+  let h ← tok
+  match f with
+  | "c" => pure ⟨.colon, h⟩
+  | "d" => pure ⟨.dash, h⟩
+  | _ => failure
+
+def pOptBytes : TP (Option Bytes) := do
+  let t ← tok
+  if t == "~" then pure none else
+  match unhex t with
+  | some b => pure (some b)
+  | none => failure
+
+def pKV : TP (String × String) := do
+  let k ← hex
+  let v ← hex
+  pure (bstr k, bstr v)
+
+def pCreate : TP CreateReq := do
+  let name ← pName
+  let kind ← tok
+  let (src, files) ← (match kind with
+    | "from" => do
+      let f ← pName
+      pure (some f, [])
+    | "files" => do
+      let fs ← listOf pDigest
+      pure (none, fs)
+    | _ => failure : TP (Option Name × List Digest))
+  let tmpl ← pOptBytes
+  let tok1 ← nat
+  let sys ← pOptBytes
+  let params ← listOf pKV
+  pure { name, src, files, template := tmpl.map (fun t => (t, tok1 != 0)), system := sys, params }
+
+def showName (n : Name) : String := s!"{n.host}/{n.ns}/{n.model}:{n.tag}"
+
+def mediaCode : Media → String
+  | .model => "M" | .projector => "J" | .adapter => "A" | .template => "T" | .system => "S"
+  | .params => "P" | .license => "L" | .messages => "G" | .config => "C"
+
+def showLayer (l : Layer) : String := s!"{mediaCode l.media}@{l.digest.str}@{l.size}"
+
+def showMFile : MFile → String
+  | .corrupt => "corrupt"
+  | .readable m => "|".intercalate ((m.config :: m.layers).map showLayer)
+
+def sortStrs (l : List String) : List String := (l.toArray.qsort (· < ·)).toList
+
+def obs (res : List String) (st : Store) : String :=
+  let ls := sortStrs ((listed st).map showName)
+  let ms := sortStrs (st.mans.map (fun (n, f) => s!"{showName n}={showMFile f}"))
+  let bs := sortStrs (st.blobs.map (fun (k, c) => s!"{k}:{c.length}"))
+  s!"r={"+".intercalate res};l={",".intercalate ls};m={",".intercalate ms};b={",".intercalate bs}"
+
+structure OState where
+  st : Store
+  metas : List (String × Meta)
+
+def sha (c : Bytes) : String := hexOf (Sha256.sha256 c)
+
+def envOf (metas : List (String × Meta)) : Env :=
+  { hash := sha, gguf := fun c => aget metas (sha c) }
+
+/-- all outcomes of a state-changing operation -/
+def outcomes (env : Env) (st : Store) : Op → List (Store × List String)
+  | .create r =>
+    let names := resolutions st.readableNames r.name
+    let frevs := if r.src.isNone && r.files.length ≥ 2 then [false, true] else [false]
+    names.flatMap (fun nm => frevs.map (fun fr => createAt env st r nm fr))
+  | .copy s d =>
+    (resolutions st.readableNames s).flatMap (fun s' =>
+      (resolutions st.readableNames d).map (fun d' => copyAt st s' d'))
+  | .delete n => (resolutions st.readableNames n).map (fun t => deleteAt st t)
+  | op => [step env st op ⟨[], [], false⟩]
+
+def pOp : TP Op := do
+  let k ← tok
+  match k with
+  | "upload" => do
+    let d ← pDigest
+    let c ← hex
+    pure (.upload d c)
+  | "create" => do
+    let r ← pCreate
+    pure (.create r)
+  | "copy" => do
+    let s ← pName
+    let d ← pName
+    pure (.copy s d)
+  | "delete" => do
+    let n ← pName
+    pure (.delete n)
+  | "prune" => pure .prune
+  | "plant" => do
+    let s ← pName
+    let d ← pName
+    pure (.plant s d)
+  | "corrupt" => do
+    let n ← pName
+    pure (.corrupt n)
+  | _ => failure
+
+def splitObs (toks : List String) : List String × String :=
+  match toks.span (· ≠ "##") with
+  | (a, _ :: o :: _) => (a, o)
+  | (a, _) => (a, "")
+
+def handle (s : OState) (toks : List String) : OState × String :=
   match toks with
-  | _ => none
+  | ["reset"] => ({ s with st := Store.empty }, "ok")
+  | "meta" :: rest =>
+    match runTP (do
+      let c ← hex
+      let a ← hex
+      let m ← hex
+      let f ← hex
+      pure (c, Meta.mk (bstr a) (bstr m) (bstr f))) rest with
+    | some (c, mt) => ({ s with metas := aset s.metas (sha c) mt }, "ok")
+    | none => (s, "bad-op")
+  | "show" :: rest =>
+    let (a, o) := splitObs rest
+    match runTP pName a with
+    | some n =>
+      let env := envOf s.metas
+      let outs := ((resolutions s.st.readableNames n).map (fun t => showAt env s.st t)).eraseDups
+      if outs.contains o then (s, o) else (s, outs.headD "none")
+    | none => (s, "bad-op")
+  | _ =>
+    let (a, o) := splitObs toks
+    match runTP pOp a with
+    | some op =>
+      let env := envOf s.metas
+      let outs := outcomes env s.st op
+      match outs.find? (fun (st', res) => obs res st' == o) with
+      | some (st', _) => ({ s with st := st' }, o)
+      | none =>
+        match outs with
+        | (st', res) :: _ => ({ s with st := st' }, obs res st')
+        | [] => (s, "no-outcome")
+    | none => (s, "bad-op")
+
+partial def loop (h : IO.FS.Stream) (out : IO.FS.Stream) (s : OState) : IO Unit := do
+  let line ← h.getLine
+  if line.isEmpty then return ()
+  let line := line.trimAsciiEnd.toString
+  let (s', r) := handle s (tokens line)
+  out.putStrLn r
+  loop h out s'
 
 end Oracle.C04
 
-def main (_ : List String) : IO Unit := Oracle.runMain Oracle.C04.handle
+def main (_ : List String) : IO Unit := do
+  let stdin ← IO.getStdin
+  let stdout ← IO.getStdout
+  Oracle.C04.loop stdin stdout ⟨OllamaVerif.Store.Store.empty, []⟩
